@@ -112,6 +112,12 @@ func runConcurrent(seed int64, tier string) ([]*Scenario, []string) {
 				sharedUntracked = append(sharedUntracked, t)
 			}
 		}
+		// matrices large enough for blocked / packed fast paths
+		big1 := g0.leafDistinct([]int{6 + g0.intn(4), 8 + g0.intn(3)}, g0.chance(0.5), -1.5, 1.5)
+		shared = append(shared, big1)
+		if !g0.Cmds[big1].Flag {
+			sharedUntracked = append(sharedUntracked, big1)
+		}
 		prefix := append([]Cmd{}, g0.Cmds...)
 		prefixObs := append([]Obs{}, g0.Obs...)
 		// ---- programs by sequential dry run on private copies of the shared tensors ----
